@@ -23,7 +23,7 @@ RULE = ('docstrings from a markup-fragment fuzzer (epytext/reST/google/numpy fra
         'the control function must render as in a clean system. Distinct: (string, docformat, process-types); non-trivial: '
         'the string is not plain words.')
 ASSUME = ['BROKEN placeholders are legal only for summary, toc and field bodies', 'CPU budget overruns are confirmed alone with a 4x budget before being reported']
-DECIDING = {'renderings': 20000, 'fallbacks_observed': 300, 'recoverable_errors_observed': 300, 'control_comparisons': 2000, 'docformats': 5}
+DECIDING = {'inherited_renderings': 500, 'inherited_fallbacks_observed': 100, 'renderings': 20000, 'fallbacks_observed': 300, 'recoverable_errors_observed': 300, 'control_comparisons': 2000, 'docformats': 5}
 CPU_S = 900
 HANG_IS_VIOLATION = True
 FORMATS = ['epytext', 'restructuredtext', 'google', 'numpy', 'plaintext']
@@ -43,6 +43,9 @@ class K:
     def __init__(self):
         self.ivar = 2
         {ivar}
+class Sub(K):
+    def meth(self, a, b=1):
+        return 2
 def func(a, *args, **kw):
     {func}
 CONST = 3
@@ -230,6 +233,43 @@ def _judge(res: core.Res, s: str, fmt: str, ptypes: bool) -> None:
                     field_only = 'Broken description' in outs['docstring'] and not any(ev[0] == 'parser-gave-up' for ev in body_gave_up) and \
                         all(_re.match(r'^\w+(Exception|Error): ', str(d)) for ev in body_gave_up if ev[0] == 'fatal-error' for d in ev[3])
                     res.v('C08:field-body-failure-shows-broken-description' if field_only else 'C08:fallback-text-differs', f'{kind} docstring {s[:80]!r} ({fmt}): gave up, but the page does not show the complete original text as plain text (shown: {[x[:80] for x in p.pre][:2]})', shown=p.pre[:2], **w2)
+    # an object showing a docstring that is not its own (an overriding method without docstring): same rule, in a system of its
+    # own so that this is the first rendering of that docstring (a second rendering of the same parsed docstring is not comparable)
+    import zlib as _zlib
+    if _zlib.crc32(s.encode('utf-8', 'surrogatepass')) % 3 == 0:
+        del _state['events'][:]
+        try:
+            sys2 = _build(s, fmt, ptypes, which=['meth'])
+        except core.CpuTimeout:
+            raise
+        except Exception:  # noqa: BLE001 -- reported above
+            sys2 = None
+        sub_m = sys2.allobjects.get('fz.Sub.meth') if sys2 is not None else None
+        base_m = sys2.allobjects.get('fz.K.meth') if sys2 is not None else None
+        if sub_m is not None and base_m is not None and base_m.docstring:
+            o2, e2 = _render(sub_m)
+            res.c('inherited_renderings')
+            if e2 is not None:
+                if not any(0xd800 <= ord(c) < 0xe000 for c in s):
+                    res.v(f'C08:raises:inherited:{e2[0]}:{type(e2[1]).__name__}', f'format_{e2[0]} of a method inheriting the docstring {s[:80]!r} ({fmt}) raised {e2[1]!r}', **w)
+            else:
+                evs = [ev for ev in _state['events'] if ev[1] in ('fz.K.meth', 'fz.Sub.meth')]
+                gave_up = [ev for ev in evs if (ev[0] in ('parser-gave-up', 'stan-gave-up') or (ev[0] == 'fatal-error' and fmt == 'epytext')) and ev[2] == 'docstring']
+                if gave_up:
+                    res.c('inherited_fallbacks_observed')
+                    p2 = _Pre()
+                    p2.feed(o2['docstring'])
+                    p2.close()
+                    norm = lambda t: ''.join(c for c in t if c >= ' ' or c in '\n\t')  # noqa: E731
+                    import re as _re
+                    field_only = 'Broken description' in o2['docstring'] and not any(ev[0] == 'parser-gave-up' for ev in gave_up) and \
+                        all(_re.match(r'^\w+(Exception|Error): ', str(d)) for ev in gave_up if ev[0] == 'fatal-error' for d in ev[3]) and \
+                        ('fieldTable' in o2['docstring'])
+                    if norm(base_m.docstring) not in [norm(x) for x in p2.pre] and not field_only:
+                        res.v('C08:inherited-docstring-fallback-differs', f'{fmt} docstring {s[:80]!r}: the parser/renderer gave up, the overriding method that inherits the docstring '
+                              f'does not show the complete text as plain text (shown: {[x[:60] for x in p2.pre][:2]}, broken marker: {"Broken description" in o2["docstring"]})', inheritor=o2['docstring'][:1500], **w)
+                    if 'fz.K.meth' not in sys2.parse_errors['docstring']:
+                        res.v('C08:inherited-gave-up-reported-against-other-object', f'{fmt} docstring {s[:80]!r}: the failure is not recorded for the object that owns the docstring (parse_errors: {sorted(sys2.parse_errors["docstring"])})', **w)
     # recoverable problems must be reported (reference: the format's parser called directly)
     if fmt in ('restructuredtext', 'google', 'numpy'):
         from pydoctor.epydoc.markup import get_parser_by_name
